@@ -26,6 +26,11 @@ def merge(I, results, base_len):
     rets = []
     for r in results:
         if r.kind == 'raise':
+            # the raising branch may be excluded by quantified facts of the path condition (which
+            # the feasibility solver does not see): drop it only if that is *proved*
+            from .explore import quick_valid, has_quantifier
+            if any(has_quantifier(c) for c in r.pc) and quick_valid(r.pc, z3.BoolVal(False), 3000):
+                continue
             raise Unsupported(f'exception {r.value!r} inside a merged (element) expression')
         if r.kind == 'return':
             rets.append((z3.And(*r.pc[base_len:]) if len(r.pc) > base_len else z3.BoolVal(True), r.value))
@@ -487,19 +492,21 @@ def seq_class(I, s):
     if s.cls_id is not None:
         return s.cls_id
     ctx = I.ex.ctx
-    known = getattr(ctx, 'seq_classes', None)
+    # classes live with the outermost exploration of the current path: a sequence met inside a
+    # nested (merged) evaluation must be recognised again later; identity is always *proved*
+    # under the current path condition, so sharing the table is sound
+    root = I.ex.stack[0]
+    known = getattr(root, 'seq_classes', None)
     if known is None:
-        known = ctx.seq_classes = []
+        known = root.seq_classes = []
+    from .explore import quick_valid
+    gi = z3.Int('ge!class')      # the whole query is one generic-element goal: a fixed name lets repeats hit the memo
     for other, cid in known:
-        goal = seq_eq(s, other)
-        sol = z3.Solver()
-        sol.set('timeout', 2000)
-        sol.add(*ctx.pc)
-        sol.add(z3.Not(goal))
-        if sol.check() == z3.unsat:
+        goal = seq_eq(s, other, fi=gi)
+        if quick_valid(ctx.pc, goal):
             s.cls_id = cid
             return cid
-    cid = len(known) + 1 + 1000 * len(I.ex.stack)
+    cid = len(known) + 1
     known.append((s, cid))
     s.cls_id = cid
     return cid
@@ -512,22 +519,24 @@ def filtered_length(I, s):
     """Length of a filtered sequence: count_f(class of its predicate); sequences whose
     predicates are provably equivalent (generic element) share the term."""
     ctx = I.ex.ctx
-    known = getattr(ctx, 'pred_classes', None)
+    root = I.ex.stack[0]          # shared with nested evaluations of the same path (see seq_class)
+    known = getattr(root, 'pred_classes', None)
     if known is None:
-        known = ctx.pred_classes = []
-    i = fresh_int('pc')
+        known = root.pred_classes = []
+    i = z3.Int('pc!class')       # one generic index per query (see seq_class)
     for other, cid in known:
         goal = z3.And(s.src_len == other.src_len,
                       z3.Implies(z3.And(i >= 0, i < s.src_len), s.pred(i) == other.pred(i)))
-        sol = z3.Solver()
-        sol.set('timeout', 2000)
-        sol.add(*ctx.pc)
-        sol.add(z3.Not(goal))
-        if sol.check() == z3.unsat:
+        from .explore import quick_valid
+        if quick_valid(ctx.pc, goal):
             return count_f(z3.IntVal(cid))
-    cid = len(known) + 1 + 1000 * len(I.ex.stack)
+    cid = len(known) + 1
     known.append((s, cid))
     t = count_f(z3.IntVal(cid))
+    # facts about the new term belong to every enclosing context of this path
+    for c2 in I.ex.stack:
+        if c2 is not ctx:
+            c2.add(z3.And(t >= 0, t <= s.src_len))
     ctx.add(z3.And(t >= 0, t <= s.src_len))
     # one instance of "count > 0 => some kept element": enough for emptiness tests
     w = fresh_int('w')
